@@ -81,6 +81,13 @@ def compare_error(e, real_err, ref_err, s):
     if real.shape != ref.shape:
         return False, np.ones(len(ref)), math.inf
     sig = M.sigma_vector(e, real, ref)
+    if isinstance(e, M.EdgeOdometry) and M.rot_rows(e) and sig[3] < 0:
+        # q and -q are the same rotation, so two conventions are legitimate for the rotational error: the raw Hamilton
+        # error quaternion, or its representative with w >= 0.  They coincide whenever the Hamilton error quaternion
+        # already has a positive scalar part - a negated vector part is then neither.
+        full = R.odo_err_full("se3", M.fl(e.vertices[0].pose), M.fl(e.vertices[1].pose), M.fl(e.estimate))
+        if R.val(full[6]) > 1e-3:
+            sig = np.ones(len(ref))
     d = np.abs(real - sig * ref)
     for r in M.angle_rows(e):
         # at the cut, +pi and -pi are the same angle
@@ -192,6 +199,12 @@ def check_edge_error(ctx, e, where, case=None, chi2=True):
     for r in M.angle_rows(e):
         inr = -math.pi - 4 * EPS <= real_err[r] <= math.pi + 4 * EPS if len(real_err) > r else False
         ctx.check("error-angle-in-range", inr, feats, {"angle": real_err[r] if len(real_err) > r else None}, case)
+    for r in M.angle_rows(e):
+        if abs(abs(ref_err[r]) - math.pi) < 1e-9:
+            # the angular error is at its discontinuity (+pi and -pi are the same angle but give different e^T Omega e
+            # when Omega couples angle and translation): excluded, as for C01
+            ctx.skip("SE(2) angular error at +-pi: chi2 not compared")
+            return None
     if chi2 and ok:
         Om = np.asarray(e.information, dtype=float)
         with np.errstate(all="ignore"):
